@@ -12,6 +12,8 @@ EDGE = [('edge:only-function-definitions', 'function f(a) -> a + 1; function g()
         ('edge:strings-equal-to-internal-names', 'print("if:consequent:0 if:end:1 loop:body:2 loop:condition:3 λ: ::size_0 ::array_0 ::i_0\\n"); if true then print("if:consequent:0\\n") else print("if:end:1\\n"); '
          'let i = 0; while i < 2 do begin print("loop:body:2"); print("loop:condition:3"); i <- i + 1 end; let a = array(2, begin print("::i_0"); print("::size_0"); 1 end); print("λ:~\\n", a); '
          'function f(x) -> if x then print("if:end:1") else print("if:consequent:0"); f(true); f(false); print("if:end:1")'),
+        ('edge:identical-bodies-and-entry-code-inside-a-function', 'function a() -> begin print("1\\n"); print("2\\n"); print("3\\n") end; function b() -> begin print("1\\n"); print("2\\n"); print("3\\n") end; '
+         'let o = object begin function m() -> 1; function n() -> 1 end; let p = object begin function m() -> 1 end; print("1\\n"); print("2\\n")'),
         ('edge:field-and-method-of-one-name', 'let o = object begin let value = 42; function value() -> this.value; function m() -> 1; let m = 2 end; print("~ ~ ~ ~ ~\\n", o.value, o.value(), o.m, o.m(), o)')]
 
 
